@@ -34,7 +34,7 @@ const SPEC: Spec = Spec {
         "port creation is only attempted below the service's port limits (limits are C08)",
         "under contention only AlreadyExists / IsBeingCreatedByAnotherInstance / HangsInCreation (create), DoesNotExist / HangsInCreation / IsMarkedForDestruction (open), these wrapped or SystemInFlux (open_or_create) are accepted; InternalFailure, ServiceInCorruptedState, InsufficientPermissions are documented as implementation or configuration problems and count as violations",
         "thread / process interleavings are sampled (kernel-blocking protocol), not enumerated; the process part runs as root, so permission-based locking of the static config is not an obstacle for readers",
-        "a participant that does not reach a barrier within 120 s (normal: milliseconds) is reported as conc.hang",
+        "a participant that does not reach a barrier within 120 s (normal: milliseconds) ends the case as discarded (counted; more than 1 % discarded cases make the run inconclusive): time never decides the property",
     ],
     watchdog_quick_s: 1500,
     watchdog_thorough_s: 10800,
@@ -70,8 +70,11 @@ fn conc_part(ctx: &mut Ctx, part: &str, procs: bool, total: u64, reps: u16) {
         // abort the process, and an abort must end one case, not the worker's whole share
         let (mut obs, r) = run_conc_forked(ctx, &case);
         let r = match r {
-            // a starved machine is not a verdict
-            Err(f) if f.signature == "harness.slow" => {
+            // a starved machine is not a verdict, and neither is a participant that did not reach a barrier
+            // within the (wall-clock) hang limit: time never decides a property; such cases are discarded
+            // and counted (more than 1 % of them make the run inconclusive, exit 2)
+            Err(f) if f.signature == "harness.slow" || f.signature == "conc.hang" || f.signature == "conc.case" => {
+                ctx.note(format!("discarded: {}: {}", f.signature, f.message.chars().take(300).collect::<String>()));
                 obs.discarded = true;
                 Ok(vec![])
             }
